@@ -797,7 +797,10 @@ func (a *Analysis) condPos(c Cond, fallback *ssa.Function) string {
 
 // availabilityGuard: condition c, as taken, establishes n <= buf.Len() with both sides compared as plain ints
 // (no narrowing conversion anywhere in the comparison).
-func availabilityGuard(c Cond, n *Val) bool {
+func availabilityGuard(c Cond, n *Val) bool { return availabilityGuardCtx(c, n, nil) }
+
+// availabilityGuardCtx: ctx are conditions already in force (they may say that a divisor is positive).
+func availabilityGuardCtx(c Cond, n *Val, ctx []Cond) bool {
 	v := c.V
 	if v.Op != "binop" {
 		return false
@@ -818,7 +821,7 @@ func availabilityGuard(c Cond, n *Val) bool {
 		if tb == 0 {
 			tb = 64
 		}
-		if tb >= fb && !isSignedType(x.Type) && nonNegative(x.Args[0], nil) {
+		if tb >= fb && !isSignedType(x.Type) && nonNegative(x.Args[0], ctx) {
 			return false
 		}
 		return true
@@ -915,7 +918,140 @@ func saysAtMost(c Cond, small int) bool {
 func (a *Analysis) spuriousRejections(paths []*Path) []string {
 	var out []string
 	seen := map[string]bool{}
-	guardOK := func(last Cond) bool {
+	ms := &safety{a: a, minSizeMemo: map[string]int64{}}
+	// elementMin: the least number of bytes one element of the list counted by cnt occupies, as far as the loops of
+	// this function that iterate cnt times tell (-1: no such loop)
+	elementMin := func(cnt *Val) int64 {
+		var m int64 = -1
+		ac := affOf(cnt)
+		if ac.Top {
+			return -1
+		}
+		for _, p := range paths {
+			walkEvents(p.Events, func(e *Event, _ int) {
+				if e.Kind != EvRep || e.Count == nil || !affOf(e.Count).Equal(ac) {
+					return
+				}
+				for _, arm := range e.Iter {
+					failed := false
+					for _, x := range arm.Events {
+						if x.Failed {
+							failed = true
+						}
+					}
+					if failed {
+						continue
+					}
+					if n := ms.iterationMinBytes(arm); m < 0 || n < m {
+						m = n
+					}
+				}
+			})
+		}
+		return m
+	}
+	// consumedAfter: for every success path that passes the Len() observation with this id, a lower bound (affine) of
+	// the number of bytes the path consumes after it.
+	consumedAfter := func(id int) []*Affine {
+		var out []*Affine
+		sizeOf := func(e *Event) *Affine {
+			switch e.Kind {
+			case EvReadInt:
+				if !e.Failed {
+					if sz, ok := fixedSize(e.IntType); ok && sz > 0 {
+						return affConst(sz)
+					}
+				}
+			case EvReadBytes:
+				if !e.Failed && !e.Short && e.Size != nil {
+					if a := affOf(e.Size); !a.Top {
+						return a // a read that succeeded delivered exactly the bytes asked for
+					}
+				}
+			case EvObj:
+				if !e.Failed && e.Dir == "Decode" {
+					return affConst(ms.iterationMinBytes(&Arm{Events: []*Event{e}}))
+				}
+			case EvRep:
+				if !e.Partial && e.Count != nil && nonNegative(e.Count, nil) {
+					if c := affOf(e.Count); !c.Top {
+						var m int64 = -1
+						for _, arm := range e.Iter {
+							if n := ms.iterationMinBytes(arm); m < 0 || n < m {
+								m = n
+							}
+						}
+						if m > 0 {
+							return c.Scale(m)
+						}
+					}
+				}
+			case EvAlt:
+				var m int64 = -1
+				for _, arm := range e.Iter {
+					if n := ms.iterationMinBytes(arm); m < 0 || n < m {
+						m = n
+					}
+				}
+				if m > 0 {
+					return affConst(m)
+				}
+			}
+			return affConst(0)
+		}
+		var walk func(evs []*Event) (*Affine, bool)
+		walk = func(evs []*Event) (*Affine, bool) {
+			var acc *Affine
+			for _, e := range evs {
+				if acc != nil {
+					acc = acc.Add(sizeOf(e), 1)
+					continue
+				}
+				if e.Kind == EvLen && e.ID == id {
+					acc = affConst(0)
+					continue
+				}
+				if e.Kind == EvAlt {
+					var inner *Affine
+					n := 0
+					for _, arm := range e.Iter {
+						if a, ok := walk(arm.Events); ok {
+							inner = a
+							n++
+						}
+					}
+					if n == 1 {
+						acc = inner
+					} else if n > 1 {
+						acc = affConst(0) // several alternatives pass it: nothing is known about what they consume
+					}
+				}
+			}
+			return acc, acc != nil
+		}
+		for _, p := range paths {
+			if pathKind(p) != "ok" {
+				continue
+			}
+			if a, ok := walk(p.Events); ok {
+				out = append(out, a)
+			}
+		}
+		return out
+	}
+	// affAtLeastZero: the term is non-negative whatever its symbols are (non-negative symbols with non-negative factors)
+	affAtLeastZero := func(d *Affine) bool {
+		if d.Top || d.C < 0 {
+			return false
+		}
+		for k, c := range d.Term {
+			if c < 0 || (c > 0 && !nonNegative(d.Sym[k], nil)) {
+				return false
+			}
+		}
+		return true
+	}
+	guardOK := func(last Cond, ctx []Cond) bool {
 		if last.V.Op != "binop" {
 			return false
 		}
@@ -961,7 +1097,30 @@ func (a *Analysis) spuriousRejections(paths []*Path) []string {
 			}
 			// the direction taken must mean: more is needed than the buffer holds – strictly more: a guard that also
 			// refuses need == Len() (written >= where > is meant) rejects a complete message whose last field this is
-			if availabilityGuard(Cond{V: last.V, Taken: !last.Taken}, last.V.Args[1-side]) {
+			if availabilityGuardCtx(Cond{V: last.V, Taken: !last.Taken}, last.V.Args[1-side], ctx) {
+				// count > Len()/k refuses exactly the counts whose elements cannot all be present only if no element is
+				// shorter than k bytes: a larger divisor refuses complete lists of short elements
+				if k, div := lenOverConst(o); div && k > 1 {
+					if m := elementMin(last.V.Args[1-side]); m >= 0 && k > m {
+						continue
+					}
+				}
+				// need > Len() refuses only truncated input if the reads that follow on the success paths really consume at
+				// least `need` bytes: a guard asking for more (n+1 for an n-byte text, 29 for a 28-byte record) refuses a
+				// complete value that ends the input
+				if o.Op == "buflen" {
+					if need := affOf(last.V.Args[1-side]); !need.Top {
+						short := false
+						for _, got := range consumedAfter(o.ID) {
+							if d := got.Add(need, -1); !d.Top && !affAtLeastZero(d) {
+								short = true
+							}
+						}
+						if short {
+							continue
+						}
+					}
+				}
 				op := last.V.Name
 				if !last.Taken {
 					op = map[string]string{"<": ">=", ">=": "<", ">": "<=", "<=": ">"}[op]
@@ -1013,14 +1172,14 @@ func (a *Analysis) spuriousRejections(paths []*Path) []string {
 			return true, nil // nothing decided this error: not a data-dependent rejection the rule can name
 		}
 		last := conds[len(conds)-1]
-		if guardOK(last) {
+		if guardOK(last, conds[:len(conds)-1]) {
 			return true, nil
 		}
 		// the availability guard may be followed by tests that only pick the error to report (nothing left at all:
 		// io.EOF, otherwise io.ErrUnexpectedEOF): conditions on the buffer's length alone
 		for i := len(conds) - 1; i >= 0; i-- {
 			c := conds[i]
-			if guardOK(c) {
+			if guardOK(c, conds[:i]) {
 				return true, nil
 			}
 			onlyLen := c.V.Contains(func(x *Val) bool { return x.Op == "buflen" }) && !c.V.Contains(func(x *Val) bool {
